@@ -102,10 +102,23 @@ theorem C20_anyCfg_failed_op_unchanged_or_empty (c : Cfg) {w : World} (h : w.Inv
   · exact key _ (permute_spec c t _ _ hinv (hs t hget)) hthrew
   · exact key _ (writeFits_spec t _ _ hinv) hthrew
 
+/-- hypotheses of the three `anyCfg` theorems, for the snapshot: a fitted table; `read` into it is safe (it is refused)
+    and throws; `fit` on it is not safe (C20-2) -/
+example : (run Cfg.asIs (World.init none) [.construct 0, .fit 0 ⟨true, true, [⟨2, 8, 5⟩]⟩]).InvX :=
+  (C20_anyCfg_history Cfg.asIs _ _ (World.init_inv none).toInvX (safeHistB_sound (by decide))).1
+example : SafeCall Cfg.asIs (run Cfg.asIs (World.init none) [.construct 0, .fit 0 ⟨true, true, [⟨2, 8, 5⟩]⟩])
+    (.read 0 ⟨0, 0, [⟨2, 8, 5⟩], true, []⟩) := safeCallB_sound (by decide)
+example : (step Cfg.asIs (run Cfg.asIs (World.init none) [.construct 0, .fit 0 ⟨true, true, [⟨2, 8, 5⟩]⟩])
+    (.read 0 ⟨0, 0, [⟨2, 8, 5⟩], true, []⟩)).res = .threw := by decide
+example : safeCallB Cfg.asIs (run Cfg.asIs (World.init none) [.construct 0, .fit 0 ⟨true, true, [⟨2, 8, 5⟩]⟩])
+    (.fit 0 ⟨true, true, [⟨2, 8, 5⟩]⟩) = false := by decide
+
 /-- **safeCall_repaired**: with every repair in force no circumstance is excluded: in a world whose tables satisfy
     the invariant every call is safe.  (So the `anyCfg` theorems specialise to the `Cfg.repaired` theorems.) -/
 theorem C20_safeCall_repaired (w : World) (h : w.Inv) (op : Op) : SafeCall Cfg.repaired w op :=
   safeCall_repaired h.allExt op
+
+example : (World.init (some 3)).Inv := World.init_inv _
 
 /-- **stack_sources_untouched**: whatever the configuration and however it ends, the stacking constructor changes
     no object other than the one it constructs. -/
@@ -330,6 +343,8 @@ theorem C20_asIs_stack_never_safe (cd : Option Nat) (ts : List Tab) (order : Nat
   have hc := h1.resolve_left (by decide)
   exact (h2.resolve_left (by decide)) hc
 
+example : stackValid [{ ndim := 1, dims := [⟨2, 8, 5⟩], core := true }, { ndim := 1, dims := [⟨2, 8, 5⟩], core := true }] = true := by decide
+
 /-! ## The library as it is today (`Cfg.head`): what the driver runs
 
 C20-1 … C20-12 are in /repo; modelling the stacking constructor showed three more defects, for which repairs are
@@ -377,6 +392,8 @@ theorem C20_head_reach_eq (cd : Option Nat) (ops : List Op) (h : ∀ op ∈ ops,
     simp only [run, List.foldl_cons]
     rw [C20_head_eq_repaired w op (h op List.mem_cons_self)]
     exact ih (fun o ho => h o (List.mem_cons_of_mem _ ho)) _
+
+example : ∀ op ∈ (C20.hist.take 16), op.isStack = false := by decide
 
 /-- **head_safeCall**: in the library as it is, a call is safe unless it is `convolve` / `permuteDimensions` on a table
     without `extents` (and not refused anyway), or a stacking constructor with unusable arguments or hit by the
